@@ -56,6 +56,7 @@ import hashlib
 import os
 import re
 import sys
+import threading
 import unicodedata
 
 from mc import common, explore, vclock
@@ -290,11 +291,45 @@ def mutate_signal(kind, signal, kept):
     return not (type(after) is type(before) and after == before)
 
 
+class Frame:
+    """One run() call in flight, as the CALLER sees it: the request it passed, the verdicts its agents hold for this
+    request, what the agents do while answering.  The agents' answers are logged into the frame of the call they
+    are answering (innermost call in flight on the answering thread), so that overlapping calls on one loop -
+    re-entrant or from several threads - are each judged on their own request and their own verdicts."""
+
+    __slots__ = ("prompt", "okey", "ex", "as_", "kind", "slots", "hook", "fired", "nested", "deferred", "served", "log", "start",
+                 "end", "outcome")
+
+    def __init__(self, prompt, ex, as_, kind, slots, hook):
+        self.prompt, self.ex, self.as_ = prompt, ex, as_
+        try:
+            self.okey = ("p", prompt)
+            hash(self.okey)
+        except TypeError:
+            self.okey = ("r", repr(prompt))
+        self.kind, self.slots = kind, slots
+        self.hook = hook  # (where, fn): fn() is run once per `where` ("E"/"A": that agent, while answering; "C": the
+        self.fired = set()  # on_block / on_permit callback) and returns [(violations, frame)] of the calls it made
+        self.nested = []
+        self.served = False  # a reply to the same request was served from the cache while this call was in flight
+        self.deferred = []  # replies served from this call's reply before this call had returned (judged when it has)
+        self.log = {"E": [], "A": []}
+        self.start = self.end = None
+        self.outcome = None
+
+    def fire(self, where):
+        if self.hook is not None and where in self.hook[0] and where not in self.fired:
+            self.fired.add(where)
+            self.nested += self.hook[1]()
+
+
 class Stub:
     """Programmable executor / assessor assigned onto the real loop object."""
 
     def __init__(self, name):
         self.name = name
+        self.slot = None  # "E" / "A", set by the Session that owns the agent
+        self.ses = None
         self.verdict = "UNSET"
         self.shape = 0
         self.calls = 0
@@ -314,10 +349,18 @@ class Stub:
 
     def express(self, signal):
         self.calls += 1
-        v = self.verdict
+        fr = self.ses.frame_in_flight() if self.ses is not None else None
+        if fr is None:
+            v, mutate = self.verdict, self.mutate
+        else:  # the verdict this agent holds for the request of THIS run() call
+            v = fr.ex if self.slot == "E" else fr.as_
+            mutate = fr.kind if self.slot in fr.slots else None
+            fr.log[self.slot].append(v)
         self.log.append(v)
-        if self.mutate is not None:
-            self.rewrites += bool(mutate_signal(self.mutate, signal, self.kept))
+        if mutate is not None:
+            self.rewrites += bool(mutate_signal(mutate, signal, self.kept))
+        if fr is not None:
+            fr.fire(self.slot)  # while answering, the agent may submit another request through the same loop
         if is_raise(v):
             if v == "raise":
                 raise RuntimeError(f"{self.name} crashed")
@@ -422,8 +465,10 @@ def judge_reply(logic, ex, as_, prompt, s, assessor_name):
 
 
 class Session:
-    """One real loop + bookkeeping of the original (agent-consulted) reply per prompt.  What kind of step a
-    call was (evaluated / cache hit / refusal) is derived from the agents' call log and the public reply only."""
+    """One real loop + bookkeeping of the original (agent-consulted) replies per prompt.  What kind of step a
+    call was (evaluated / cache hit / refusal) is derived from the agents' call log and the public reply only.
+    Calls may overlap (an agent or callback of call A submits call B through the same loop; two threads): every
+    call has its own Frame, the agents log their answers into the frame they are answering."""
 
     def __init__(self, logic, cfg, real=False, budget=100_000, shapes=(0, 0), reuse=False):
         self.logic = logic
@@ -434,18 +479,49 @@ class Session:
         if not real:
             self.loop.executor.shape, self.loop.assessor.shape = shapes
             self.loop.executor.reuse = self.loop.assessor.reuse = bool(reuse)
+            for slot, agent in zip("EA", self.agents):
+                agent.slot, agent.ses = slot, self
         self.noisy = real or bool(self.cfg[4])
         self.breaker = self.cfg[2] > 0
-        self.orig = {}
+        self.evals = {}  # request -> [(start, end, reply)] agent-consulted replies not superseded by a later one
+        self.stacks = {}  # thread -> frames of the run() calls in flight on it, innermost last
+        self.ticks = 0
         self.execs = 0
         self.last = None
 
-    def call(self, prompt, ex=None, as_=None, mut=None):
-        """mut = (kind, slots) : for this call the agent(s) in `slots` ("E", "A", "EA") rewrite the Signal they are
-        handed in place.  Everything the oracle knows about the request comes from `prompt`, the caller's argument."""
+    # -- overlapping calls ----------------------------------------------------------------------------
+    def frame_in_flight(self):
+        st = self.stacks.get(threading.get_ident())
+        if st:
+            return st[-1]
+        # an agent answering on a thread that made no run() call (a library that runs its agents on helper threads):
+        # attributable iff exactly one call is in flight
+        live = [st[-1] for st in self.stacks.values() if st]
+        return live[0] if len(live) == 1 else None
+
+    def _tick(self):
+        self.ticks += 1
+        return self.ticks
+
+    @property
+    def orig(self):
+        """request -> the replies a cached reply may repeat: the latest agent-consulted reply of this request, and
+        every one whose run() call overlapped with it (neither is 'the' original more than the other)"""
+        return {k: tuple(sorted({e[2] for e in es}, key=repr)) for k, es in self.evals.items()}
+
+    def call(self, prompt, ex=None, as_=None, mut=None, hook=None):
+        return self.call_fr(prompt, ex, as_, mut=mut, hook=hook)[0]
+
+    def call_fr(self, prompt, ex=None, as_=None, mut=None, hook=None):
+        """-> (violations incl. those of the calls made by `hook`, Frame).
+        mut = (kind, slots) : for this call the agent(s) in `slots` ("E", "A", "EA") rewrite the Signal they are
+        handed in place.  hook = (where, fn) : while this call is in flight the agent(s) / the on_block-on_permit
+        callback in `where` ("E", "A", "C") run fn(), which submits further requests through the same loop.
+        Everything the oracle knows about the request comes from `prompt`, the caller's argument."""
         L = self.loop
         E, A = self.agents  # the harness's own references: loop.executor / loop.assessor are not trusted either
         kind, slots = mut or (None, "")
+        fr = Frame(prompt, ex, as_, kind, slots, hook)
         if not self.real:
             E.set_verdict(ex)
             A.set_verdict(as_)
@@ -456,6 +532,13 @@ class Session:
             A.after = (lambda sig: mutate_signal(kind, sig, [])) if "A" in slots else None
         ne, na, c0 = len(E.log), len(A.log), E.calls + A.calls
         self.execs += 1
+        restore = None
+        if hook is not None and "C" in hook[0]:
+            restore = (L.on_block, L.on_permit)
+            L.on_block = L.on_permit = lambda _reply: fr.fire("C")
+        st = self.stacks.setdefault(threading.get_ident(), [])
+        st.append(fr)
+        fr.start = self._tick()
         try:
             if self.noisy:
                 with G.quiet():
@@ -463,36 +546,68 @@ class Session:
             else:
                 r = L.run(prompt)
         except (Exception, _Boom) as e:  # run() raising is not a pass; recorded as an outcome
-            self.last = ("run-raises", type(e).__name__)
-            return []
-        consulted = E.calls + A.calls - c0
-        wex = E.log[ne] if len(E.log) > ne else None
-        was = A.log[na] if len(A.log) > na else None
+            fr.outcome = self.last = ("run-raises", type(e).__name__)
+            return self._nested(fr, []), fr
+        finally:
+            fr.end = self._tick()
+            st.pop()
+            if restore is not None:
+                L.on_block, L.on_permit = restore
+        if self.real:  # the proxies around the built-in agents keep one log; these sessions never overlap calls
+            consulted = E.calls + A.calls - c0
+            wex = E.log[ne] if len(E.log) > ne else None
+            was = A.log[na] if len(A.log) > na else None
+        else:
+            consulted = len(fr.log["E"]) + len(fr.log["A"])
+            wex = fr.log["E"][0] if fr.log["E"] else None
+            was = fr.log["A"][0] if fr.log["A"] else None
         s = snap(r)
-        try:
-            okey = ("p", prompt)
-            hash(okey)
-        except TypeError:
-            okey = ("r", repr(prompt))
+        okey = fr.okey
         flagged = bool(getattr(r, "cached", False))
         if consulted == 0 and not flagged and self.breaker and s[0] and s[3] is None:
             # nobody was asked and the request was refused: extra blocking is allowed (circuit breaker, C08)
-            self.last = ("refused", s)
-            return []
-        if flagged or consulted == 0:
-            self.last = ("cache-hit", s)
-            o = self.orig.get(okey)
-            if o is None:
-                return [("cache-hit-without-original",
-                         f"reply {s} for prompt {str(prompt)[:40]!r} was served without consulting the agents although "
-                         f"this prompt was never answered before")]
-            if o != s:
-                return [("cached-reply-differs", f"cached reply {s} differs from the original reply {o} "
-                                                 f"for prompt {str(prompt)[:40]!r}")]
-            return []
-        self.last = ("evaluated", wex, was, s)
-        self.orig[okey] = s
-        return judge_reply(self.logic, wex, was, prompt, s, A.name)
+            fr.outcome = self.last = ("refused", s)
+            return self._nested(fr, []), fr
+        # (replies are shared objects: the 'cached' mark of a reply whose agents were consulted in this very call is
+        # explained by an overlapping cache hit on the same request, and says nothing about this call)
+        if (flagged and not (consulted and fr.served)) or consulted == 0:
+            fr.outcome = self.last = ("cache-hit", s)
+            for st2 in self.stacks.values():
+                for f in st2:
+                    f.served = f.served or f.okey == okey
+            if s not in [e[2] for e in self.evals.get(okey, ())]:
+                # a call for the same request whose agents have answered but which has not returned yet (this call was
+                # made from inside it, or by another thread): its reply may be the original - judged when it returns
+                host = next((f for st2 in self.stacks.values() for f in st2
+                             if f.okey == okey and (f.log["E"] or f.log["A"])), None)
+                if host is not None:
+                    host.deferred.append(s)
+                    return self._nested(fr, []), fr
+            return self._nested(fr, self._judge_hit(okey, s)), fr
+        fr.outcome = self.last = ("evaluated", wex, was, s)
+        # this reply supersedes every original whose call had returned before this call began
+        self.evals[okey] = [e for e in self.evals.get(okey, ()) if not fr.start > e[1]] + [(fr.start, fr.end, s)]
+        return self._nested(fr, judge_reply(self.logic, wex, was, prompt, s, A.name)), fr
+
+    def _judge_hit(self, okey, s):
+        o = [e[2] for e in self.evals.get(okey, ())]
+        if not o:
+            return [("cache-hit-without-original",
+                     f"reply {s} for prompt {str(okey[1])[:40]!r} was served without consulting the agents although "
+                     f"this prompt was never answered before")]
+        if s not in o:
+            return [("cached-reply-differs", f"cached reply {s} differs from the original reply "
+                                             f"{o[-1] if len(o) == 1 else o} for prompt {str(okey[1])[:40]!r}")]
+        return []
+
+    def _nested(self, fr, v):
+        """violations of this call + of the calls its agents / callbacks made while it was in flight"""
+        for s in fr.deferred:
+            v = v + self._judge_hit(fr.okey, s)
+        for iv, ifr in fr.nested:
+            v = v + [(k, f"[request {str(ifr.prompt)[:40]!r}, submitted through the same loop while the reply to "
+                         f"{str(fr.prompt)[:40]!r} was being computed] {w}") for k, w in iv]
+        return v
 
 
 def opposite(logic, ex, as_):
@@ -691,6 +806,190 @@ def mut_worker(chunk):
     return out
 
 
+# ---- overlapping requests on one loop (a): re-entrant agents / callbacks x base table x cache ----------------
+
+RE_WHERE = ["E", "A", "EA", "C"]  # who submits the other request: executor, assessor, both, on_block/on_permit callback
+RE_TARGETS = ["other", "earlier", "same"]  # a new request / one answered (and cached) earlier / this very request
+RE_PROMPT = "restart the web server"
+RE_OTHER = "wire 1,000,000 to account 9"
+RE_EARLIER = "rotate the staging API key"
+
+
+def reent_items(quick):
+    cfgs = BASE_CFGS + [all_cfgs()[-1], (True, 0.0, 5, 60.0, 0)] if quick else all_cfgs()
+    return [(lg, cfg, where, tgt) for lg in LOGICS for cfg in cfgs for where in RE_WHERE for tgt in RE_TARGETS]
+
+
+def run_reent(logic, cfg, where, tgt, ex, as_):
+    """While request P (verdicts ex, as_) is being answered, the agent(s) / callback in `where` submit request Q
+    (opposite verdicts) through the same loop.  Then: Q again (verdicts swapped: a cache hit must repeat Q's
+    original), P again, the roles swapped (Q in flight, P submitted from inside), the earlier request, and P and Q
+    after the TTL.  Every reply - inner, outer, repeat - is judged by the normal oracle on the request and the
+    verdicts of ITS run() call.  -> (violations, outcomes, executions, inner calls made)"""
+    clock = vclock.VClock()
+    vclock.use(clock)
+    ses = Session(logic, cfg)
+    ex2, as2 = opposite(logic, ex, as_)
+    q = {"other": RE_OTHER, "earlier": RE_EARLIER, "same": RE_PROMPT}[tgt]
+    v, lasts, inner = [], [], []
+
+    def submit(prompt, e, a):
+        def fn():
+            iv, ifr = ses.call_fr(prompt, e, a)
+            inner.append(ifr)
+            return [(iv, ifr)]
+        return where, fn
+
+    v += ses.call(RE_EARLIER, "EXECUTE", "PERMIT")
+    lasts.append(ses.last)
+    for p, e, a, hook, adv in ((RE_PROMPT, ex, as_, submit(q, ex2, as2), 0), (q, ex, as_, None, 0),
+                               (RE_PROMPT, ex2, as2, None, 0), (q, ex, as_, submit(RE_PROMPT, ex2, as2), 0),
+                               (RE_EARLIER, "BLOCK", "BLOCK", None, 0),
+                               (RE_PROMPT, ex2, as2, submit(q, ex, as_), min(cfg[1], 1e6) + 1), (q, ex2, as2, None, 0)):
+        if adv:
+            clock.advance(adv)
+        iv, fr = ses.call_fr(p, e, a, hook=hook)
+        v += iv
+        lasts.append(fr.outcome)
+    lasts += [fr.outcome for fr in inner]
+    return v, lasts, ses.execs, inner
+
+
+def reent_worker(chunk):
+    out = _new_out()
+    out["inner_calls"] = out["inner_evaluated"] = out["inner_hits"] = 0
+    for logic, cfg, where, tgt in chunk:
+        for ex in BASE_VERDICTS:
+            for as_ in BASE_VERDICTS:
+                v, lasts, n, inner = run_reent(logic, cfg, where, tgt, ex, as_)
+                out["execs"] += n
+                out["cells"] += 1
+                out["inner_calls"] += len(inner)
+                for fr in inner:
+                    out["inner_evaluated"] += fr.outcome[0] == "evaluated"
+                    out["inner_hits"] += fr.outcome[0] == "cache-hit"
+                for last in lasts:
+                    out["outcomes"].add(("reent",) + _outcome_key(logic, cfg, last))
+                    if last[0] == "run-raises":
+                        out["raises"] += 1
+                    elif last[0] == "refused":
+                        out["refused"] += 1
+                if lasts[1][0] == "evaluated" and inner and inner[0].outcome[0] in ("evaluated", "cache-hit"):
+                    out["nontrivial"] += 1  # outer and inner request both really answered
+                    if not lasts[1][3][0]:
+                        out["passes"] += 1
+                if lasts[2][0] == "cache-hit":
+                    out["hits"] += 1
+                for key, what in v:
+                    who = {"E": "executor", "A": "assessor", "EA": "executor and assessor",
+                           "C": "on_block/on_permit callback"}[where]
+                    out["viol"].append((key, f"[{who} of a request in flight submits {tgt} request through the same "
+                                             f"loop] {what}",
+                                        {"kind": "reent", "logic": logic, "cfg": cfg, "where": where, "tgt": tgt,
+                                         "ex": ex, "as": as_}))
+    return out
+
+
+# ---- overlapping requests on one loop (b): two threads, every schedule up to a preemption bound (engine C) ---
+
+THREAD_PROMPTS = [RE_PROMPT, RE_OTHER]
+THREAD_PAIRS = [("EXECUTE", "PERMIT"), ("BLOCK", "BLOCK"), ("raise", "PERMIT"), ("EXECUTE", "UNKNOWN")]
+
+
+def _trace_files():
+    """source files of the class under test (and its bases): their lines are the scheduling points"""
+    fs = []
+    for klass in CoherentFeedForwardLoop.__mro__:
+        f = getattr(sys.modules.get(klass.__module__), "__file__", None)
+        if f and f.endswith(".py") and klass is not object:
+            fs.append(f)
+    return tuple(dict.fromkeys(fs))
+
+
+THREAD_BOUND = 2
+
+
+def thread_items(quick):
+    """(logic, cfg, verdict pair of thread 0, preemption bound): thread 1 holds the opposite pair for the other prompt"""
+    c0, c1 = BASE_CFGS[0], (True, TTL, 1, 0.0, 0)
+    if quick:  # the default gate logic up to the full bound, the others up to one preemption
+        return [(lg, c0, THREAD_PAIRS[0], THREAD_BOUND if lg == LOGICS[0] else 1) for lg in LOGICS]
+    items = [(lg, cfg, THREAD_PAIRS[0], THREAD_BOUND) for lg in LOGICS for cfg in (c0, c1)]
+    items += [(lg, c0, pair, THREAD_BOUND if lg in LOGICS[:2] else 1) for lg in LOGICS for pair in THREAD_PAIRS[1:]]
+    return items
+
+
+def thread_make(logic, cfg, pair):
+    from mc import sched
+
+    def make():
+        vclock.use(vclock.VClock())
+        ses = Session(logic, cfg)
+        sched.install_locks(ses.loop)
+        ex, as_ = pair
+        ex2, as2 = opposite(logic, ex, as_)
+        plan = [(THREAD_PROMPTS[0], ex, as_), (THREAD_PROMPTS[1], ex2, as2)]
+        bodies = [lambda c=c: ses.call_fr(*c) for c in plan]
+
+        def finish(exn):
+            """-> {"viol": [...], "outs": [...]}; the repeats are made sequentially after both threads ended"""
+            viol, outs = [], []
+            for r in exn.results:
+                if r and r[0] == "ok":
+                    iv, fr = r[1]
+                    viol += iv
+                    outs.append(fr.outcome)
+                else:  # never came back (deadlock / hang / escaped BaseException): not a pass
+                    outs.append(("thread-" + str(r and r[0]),))
+            if exn.deadlock is None and not exn.horizon:
+                for (p, _e, _a), (_p, e, a) in zip(plan + plan, plan[::-1] + plan):
+                    try:
+                        iv, fr = ses.call_fr(p, e, a)  # 1st round: the other thread's verdicts; 2nd round: its own
+                    except sched.HangDetected as e2:
+                        outs.append(("hang", str(e2)[:60]))
+                        break
+                    viol += iv
+                    outs.append(fr.outcome)
+            return {"viol": [list(x) for x in viol], "outs": [_outcome_key(logic, cfg, o) if o and o[0] in
+                                                              ("evaluated", "cache-hit", "refused") else o for o in outs]}
+
+        return bodies, finish
+
+    return make
+
+
+def thread_judge(exn, outcome):
+    return [tuple(x) for x in outcome["viol"]]
+
+
+def run_threads(ctx, quick, viol):
+    from mc import sched
+    fam = {"configs": 0, "executions": 0, "distinct_outcomes": 0, "max_choice_points": 0, "max_preemptions": 0,
+           "capped": 0, "both_evaluated": 0, "not_returned": 0, "by_bound": {}}
+    for logic, cfg, pair, bound in thread_items(quick):
+        fam["by_bound"][str(bound)] = fam["by_bound"].get(str(bound), 0) + 1
+        try:
+            res = sched.explore(thread_make(logic, cfg, pair), bound, thread_judge, trace_files=_trace_files())
+        except common.HarnessError as e:  # a changed tree can make a schedule irreproducible
+            ctx.defer_harness_error(f"thread family {logic} {cfg} {pair}: {e}")
+            continue
+        fam["configs"] += 1
+        fam["executions"] += res["executions"]
+        fam["distinct_outcomes"] += len(res["outcomes"])
+        fam["capped"] += res["capped"]
+        for k in ("max_choice_points", "max_preemptions"):
+            fam[k] = max(fam[k], res[k])
+        for o, n in res["outcomes"].items():
+            ctx.outcomes.add(("threads", logic, o))
+            fam["both_evaluated"] += n * (o.count("'evaluated'") >= 2)
+            fam["not_returned"] += n * ("thread-" in o or "'hang'" in o)
+        for k, w, c in res["violations"]:
+            viol.append((k, f"[two threads, one request each on one loop, schedule {c['schedule']}] {w}",
+                         {"kind": "threads", "logic": logic, "cfg": cfg, "pair": pair, "schedule": c["schedule"]}))
+    fam["preemption_bound"] = THREAD_BOUND
+    return fam
+
+
 # ---- request identity: near-miss variants of a prompt on one caching loop ------------------------
 
 IDENT_BASES = [
@@ -862,14 +1161,20 @@ class HistModel:
         o = [["run", pi, ex, as_] for pi in range(len(HIST_PROMPTS)) for ex in BASE_VERDICTS for as_ in BASE_VERDICTS]
         # both agents rewrite the shared Signal to the text of the OTHER prompt (one op per kind of reply)
         o += [["run", pi, ex, as_, "swap"] for pi in range(len(HIST_PROMPTS)) for _, (ex, as_) in sorted(HIST_KINDS.items())]
+        # the executor, while answering, submits the OTHER prompt (opposite verdicts) through the same loop
+        o += [["run", pi, ex, as_, "nest"] for pi in range(len(HIST_PROMPTS)) for _, (ex, as_) in sorted(HIST_KINDS.items())]
         o += [["advance", TTL + 1], ["advance", TTL / 2], ["clear"]]
         return o
 
     def step(self, st, op):
         vclock.use(st.clock)
         if op[0] == "run":
-            mut = ("set:" + HIST_PROMPTS[1 - op[1]], "EA") if len(op) > 4 else None
-            return st.ses.call(HIST_PROMPTS[op[1]], op[2], op[3], mut=mut)
+            mut = ("set:" + HIST_PROMPTS[1 - op[1]], "EA") if len(op) > 4 and op[4] == "swap" else None
+            hook = None
+            if len(op) > 4 and op[4] == "nest":
+                ses, other = st.ses, (HIST_PROMPTS[1 - op[1]],) + opposite(st.ses.logic, op[2], op[3])
+                hook = ("E", lambda: [ses.call_fr(*other)])
+            return st.ses.call(HIST_PROMPTS[op[1]], op[2], op[3], mut=mut, hook=hook)
         if op[0] == "advance":
             st.clock.advance(op[1])
             st.ses.last = ("advance",)
@@ -1011,6 +1316,8 @@ def run(ctx):
     fam_i = _family(ctx, ident_worker, ident_items(), tot, viol)
     fam_h = _family(ctx, hist_worker, hist_items(quick), tot, viol)
     fam_m = _family(ctx, mut_worker, mut_items(quick), tot, viol)
+    fam_r = _family(ctx, reent_worker, reent_items(quick), tot, viol)
+    fam_t = run_threads(ctx, quick, viol)
     viol.sort(key=lambda x: (x[0], repr(x[2])))
     for k, w, c in viol:
         ctx.report(k, w, c)
@@ -1065,14 +1372,14 @@ def run(ctx):
                  f"verdict object, payload that cannot be rendered, BaseException from an agent); counted as not passed")
     ctx.sample({"kind": "cell", "logic": "OR", "cfg": cfgs[-1], "prompt": PROMPTS[2], "ex": "FAILURE", "as": "PERMIT"})
     ctx.sample({"kind": "real", "scenario": real_scenarios()[0], "prompts": REAL_PROMPTS[:6]})
-    n_d = tot["cells"] + fam_i["pairs"]
+    n_d = tot["cells"] + fam_i["pairs"] + fam_t["executions"]
     ctx.coverage.update(
         states=res["states"],
         transitions=res["transitions"],
-        traces_validated_against_impl=tot["execs"] + res["transitions"] + real_exec,
+        traces_validated_against_impl=tot["execs"] + res["transitions"] + real_exec + fam_t["executions"],
         evaluations=n_d + res["transitions"],
         distinct_nontrivial=tot["nontrivial"],
-        rule="engine D, five exhaustive families on fresh real loops: (table) every (gate logic, option tuple, prompt, "
+        rule="engine D, six exhaustive families on fresh real loops: (table) every (gate logic, option tuple, prompt, "
              "executor answer, assessor answer) cell = 3 run() calls (answer; opposite verdicts; again after the TTL); "
              "(unknown words) every hand-picked or source-harvested non-verdict action word as executor / assessor / "
              "both x every base verdict x gate logic; "
@@ -1081,12 +1388,17 @@ def run(ctx):
              "another or an earlier request's text / extended / None / deleted, other fields forged, signals of earlier "
              "calls rewritten later, one re-used answer object) x slot (executor, assessor, both), 6 calls incl. cache "
              "hit, the planted request and the earlier request; (identity) every near-miss variant of "
-             "every base prompt, both orders, 4 calls; (history) base table after every prefix x tail x target. "
+             "every base prompt, both orders, 4 calls; (history) base table after every prefix x tail x target; "
+             "(re-entrant) base table x who submits another request through the same loop while a request is in "
+             "flight (executor, assessor, both, on_block/on_permit callback) x which request (new / answered earlier / "
+             "the same), 8 outer + up to 6 inner calls, each judged on its own request and verdicts. "
+             "engine C: 2 threads x 1 request each (different prompts, opposite verdicts) on one loop with CoopLocks, "
+             "every schedule up to the preemption bound, then both prompts repeated twice sequentially. "
              "distinct = distinct cell / pair; non-trivial = first (table, shapes) or judged (history) reply is NOT the "
              "fall-through blocked ERROR resp. was really evaluated, for identity: the neighbour was evaluated on its "
              "own verdicts. engine A: BFS over run/advance/clear histories on 2 prompts, state = (original replies, "
              "cache entries+age)",
-        exhaustive=bool(res["fixpoint"]),
+        exhaustive=bool(res["fixpoint"]) and not fam_t["capped"],
         fixpoint=res["fixpoint"],
         depth_completed=res["depth_completed"],
         gate_logics=len(LOGICS),
@@ -1097,7 +1409,11 @@ def run(ctx):
         prompts=len(pis),
         table_cells=len(LOGICS) * len(VERDICTS) ** 2,
         family_cells={"table": fam_d["cells"], "unknown_words": fam_w["cells"], "shapes": fam_s["cells"], "identity_pairs": fam_i["pairs"],
-                      "history": fam_h["cells"], "rewriting_agents": fam_m["cells"]},
+                      "history": fam_h["cells"], "rewriting_agents": fam_m["cells"], "reentrant": fam_r["cells"]},
+        reentrant={"where": RE_WHERE, "targets": RE_TARGETS, "inner_calls": fam_r["inner_calls"],
+                   "inner_evaluated": fam_r["inner_evaluated"], "inner_cache_hits": fam_r["inner_hits"]},
+        threads=fam_t,
+        preemption_bound=fam_t["preemption_bound"],
         signal_rewrites={"kinds": MUT_KINDS + [MUT_REUSE], "slots": MUT_SLOTS, "prompts": len(MUT_PROMPTS),
                          "effective_rewrites": fam_m["rewrites"]},
         identity_variants=[len(variants(b)) for b in IDENT_BASES],
@@ -1112,12 +1428,22 @@ def run(ctx):
         ctx.coverage["caps_hit"] = f"engine A depth {depth} completed, {res['frontier_left']} frontier states left"
     if quick:
         ctx.coverage["quick_tier_reduction"] = ("non-base option tuples run on prompt #0 only (thorough: every prompt); "
-                                                "history prefixes of length 1 and threshold+2 only")
+                                                "history prefixes of length 1 and threshold+2 only; re-entrant family on "
+                                                "4 option tuples; thread family: cache-on default options, one verdict "
+                                                "pair per gate logic, preemption bound 2 for AND and 1 for the other "
+                                                "logics (thorough: bound 2 for every logic, + breaker, 4 verdict pairs)")
     ctx.note("'this request' is what the caller passed to run(): hash, cache identity and expected verdicts are computed "
              "from the caller's argument and the agents' own call logs, never from a Signal / reply object an agent was "
              "handed. Not asserted (not in the statement): that the assessor is shown the un-rewritten text after the "
              "executor rewrote the shared Signal; what a callback does to the LoopResult it is handed (on_block/"
              "on_permit mutating the reply would be the caller forging its own verdict)")
+    ctx.note("overlapping requests on one loop (re-entrant agents / callbacks, two threads): asserted per request only - "
+             "every reply satisfies the gate / token clauses for ITS request and the verdicts its agents gave in ITS call, "
+             "a cached reply equals an original of the same request (the latest one or one whose call overlapped with "
+             "it). Not asserted (not in the statement): linearizability, statistics / breaker counters of interleaved "
+             "calls, that a thread's call returns at all (deadlock / hang is counted in coverage.threads.not_returned)")
+    if fam_t["capped"]:
+        ctx.coverage["caps_hit"] = f"thread family: {fam_t['capped']} schedules left unexplored"
     ctx.assumptions += [
         "stub agents return ActionProtein(verdict, payload, confidence); only action_type is assumed to drive the gate "
         "(checked: every verdict pair witnessed on the built-in agents gives the same reply with stubs; 9x9 answer "
@@ -1140,6 +1466,13 @@ def replay(ctx, case):
     if kind == "mut":
         return run_mut(case["logic"], tuple(case["cfg"]), MUT_PROMPTS[case["pi"]], case["mut"], case["slots"],
                        case["ex"], case["as"])[0]
+    if kind == "reent":
+        return run_reent(case["logic"], tuple(case["cfg"]), case["where"], case["tgt"], case["ex"], case["as"])[0]
+    if kind == "threads":
+        from mc import sched
+        make = thread_make(case["logic"], tuple(case["cfg"]), tuple(case["pair"]))
+        exn, outcome = sched.run_schedule(make, tuple(case["schedule"]), trace_files=_trace_files())
+        return thread_judge(exn, outcome)
     if kind == "ident":
         base = IDENT_BASES[case["base"]]
         var = dict(variants(base))[case["variant"]]
